@@ -117,7 +117,13 @@ def task(W, payload):
                            allow_inf_adjust=False)).program()
     S = fresh_session(W)
     out = mk_out(prog)
-    if not S.build(prog["build"], dump_each=False):
+    built = S.build(prog["build"], dump_each=False)
+    # the number of flows after every flow-adding / stratifying call (the copies exist, whatever a later call does with them)
+    for d in S.log:
+        if d.get("stage") == "S1" and d.get("what") == "n_flows":
+            d = dict(d); d["prescribed"] = True; d["task"] = {"module": "c04", "fn": "task", "payload": payload}; d["program"] = prog["build"]
+            out["diffs"].append(d)
+    if not built:
         bump(out, "build_rejected")
         # raise/no-raise disagreements are C17's business unless the op is a stratification with adjustments the property covers
         return out
